@@ -13,7 +13,7 @@ claimed = {
          "Each generated program of the shared fragment is executed by both backends and the observable results are compared; sampled programs only.",
          "Trusted: the harness host implements the two executor interfaces identically. Open finding C04-003 gated."),
  "C06": ("exploration", "differential testing against a reference lexer: exhaustive short strings + generated lexeme sequences + native fuzzing",
-         "Exhaustive over all strings of length <= 3 (quick) / 4 (thorough) over a 46-symbol lexical alphabet, random beyond; the oracle is an independent lexer written from grammar.ebnf.",
+         "Exhaustive over all strings of length <= 3 (quick) / 4 (thorough) over a 50-symbol lexical alphabet, random beyond; the oracle is an independent lexer written from grammar.ebnf.",
          "Trusted: verif/reflex (reference lexer) and its reading of grammar.ebnf; error spans are C08's subject and only counted here."),
  "C07": ("exploration", "differential testing against a table-driven reference parser (exhaustive operator pairs/triples) and metamorphic layout variants",
          "Exhaustive for all operator pairs and triples and prefix/binary/postfix combinations; random deep trees; layout metamorphic relation on shipped and generated programs.",
